@@ -139,7 +139,11 @@ func genSim(cs int64) simCase {
 	ns := r.Intn(6)
 	for i := 0; i < ns; i++ {
 		var s simStep
-		switch r.Intn(7) {
+		k := r.Intn(7)
+		if c.Async && r.Intn(3) == 0 {
+			k = 5 // more inbound data while a read task may be running (the gate of AsyncRead)
+		}
+		switch k {
 		case 0, 1:
 			s = simStep{Kind: "write", Writes: []wop{genWrite(r, c.Cap)}}
 		case 2:
@@ -271,7 +275,11 @@ func last(s []string) string {
 }
 
 // act feeds one action to the model and compares the states.
-func (r *simRun) act(a string) {
+func (r *simRun) act(a string) { r.act2(a, true) }
+
+// act2: compare = false for an action that is reported late, when the implementation has already moved on
+// (the next action's comparison covers both).
+func (r *simRun) act2(a string, compare bool) {
 	r.res.Actions = append(r.res.Actions, a)
 	if r.m == nil {
 		return
@@ -286,7 +294,7 @@ func (r *simRun) act(a string) {
 		mo[i], _ = strconv.Atoi(f[i])
 	}
 	r.mobs = mo
-	if r.A == nil {
+	if r.A == nil || !compare {
 		return
 	}
 	ro := r.realObs()
@@ -344,7 +352,9 @@ func (r *simRun) onRelease(t *verifsched.Thread, m *verifsched.Mutex) {
 	case "(*poller).readWriteLoop":
 		r.act("done")
 	case "(*Conn).ResetPollerEvent":
-		r.readDispatched(false) // the read pass in the poller ends with the re-arm
+		if !r.c.Async { // the read pass in the poller ends with the re-arm (reported behind the section);
+			r.readDispatched(false, false) // with asynchronous reads the gate's hook reports the dispatch, and a re-arm may be a read task's
+		}
 		r.act("rearm")
 	case "(*poller).addConn":
 		r.act("reg")
@@ -401,12 +411,15 @@ func (r *simRun) origin(c *nbio.Conn) {
 
 // readDispatched: the poller has dispatched the IN part of the event it holds (the model's ReadDispatch): the read pass
 // in the poller or a new read task (absorbed = false), or an event absorbed by the read task that is already running.
-func (r *simRun) readDispatched(absorbed bool) {
+func (r *simRun) readDispatched(absorbed bool, compare bool) {
 	if !r.pendRead {
 		return
 	}
 	r.pendRead = false
-	r.act(fmt.Sprintf("rdisp %d", b2i(absorbed)))
+	if absorbed {
+		r.kinds["absorbed-read-event"]++
+	}
+	r.act2(fmt.Sprintf("rdisp %d", b2i(absorbed)), compare)
 }
 
 // quiesce waits until the poller is parked with nothing deliverable and every application thread has ended, then
@@ -454,7 +467,7 @@ func (r *simRun) scenario() {
 	r.ep = verifsys.NewEpoll()
 	r.ep.Merge = c.Merge
 	r.ep.Block = func(cond func() bool) {
-		r.readDispatched(false) // the poller is back in epoll_wait: whatever it held has been dispatched
+		r.readDispatched(false, true) // the poller is back in epoll_wait: whatever it held has been dispatched
 		verifsched.WaitUntil(cond)
 	}
 	// the gate of Conn.AsyncRead (hook of the readpath overlay, called on the poller's goroutine right behind the atomic)
@@ -464,9 +477,9 @@ func (r *simRun) scenario() {
 		}
 		switch {
 		case op == "load" && a >= 2:
-			r.readDispatched(true)
+			r.readDispatched(true, true)
 		case op == "cas" && ok:
-			r.readDispatched(a >= 1)
+			r.readDispatched(a >= 1, true)
 		}
 	}
 	r.ep.OnDeliver = func(d verifsys.Delivered) {
@@ -642,6 +655,10 @@ func runSim(c simCase, m *hx.Model, rep *hx.Report, show bool) simResult {
 		rep.Stat("S.backlog")
 	}
 	for k, v := range r.kinds {
+		if k == "absorbed-read-event" {
+			rep.StatN("S.read-event-absorbed-by-running-task", v)
+			continue
+		}
 		rep.StatN("S.write:"+k, v)
 	}
 	rep.StatN("S.rounds", r.res.Rounds)
